@@ -690,16 +690,33 @@ def run(repo: Repo, rep: Report, tier: str) -> None:
              "alone, and the two uses need different colours (a alone on one, a + b on the other) — the per-sink grouping of the colour planner keeps one entry per "
              "(source, use), so a table keyed by the source alone, which silently drops the second use, is a defect")
     pw20 = repo.func("plan_wire_colors")
+    # name-free: `for (k, v) in <entries>: if k not in D: D[k] = v` keeps, per sink, one entry per first component (the source) and forgets the other second
+    # components (which merge the edge belongs to, i.e. which operand it is)
+    pm20 = parents_map(pw20.node)
     dedups = []
     for st in walk_local(pw20.node):
-        # <seen>[<key>] = <merge id> under `if <key> not in <seen>`: the de-duplication of a sink's entries
-        if isinstance(st, ast.Assign) and isinstance(st.targets[0], ast.Subscript) and isinstance(st.targets[0].value, ast.Name) and isinstance(st.targets[0].slice, ast.Name) \
-                and isinstance(st.value, ast.Name) and "merge" in st.value.id:
+        if not (isinstance(st, ast.Assign) and isinstance(st.targets[0], ast.Subscript) and isinstance(st.targets[0].value, ast.Name) and isinstance(st.targets[0].slice, ast.Name)
+                and isinstance(st.value, ast.Name)):
+            continue
+        cur = st
+        loop = None
+        while cur in pm20:
+            cur = pm20[cur]
+            if isinstance(cur, ast.For):
+                loop = cur
+                break
+        if loop is not None and isinstance(loop.target, ast.Tuple) and len(loop.target.elts) == 2 and all(isinstance(e, ast.Name) for e in loop.target.elts) \
+                and loop.target.elts[0].id == st.targets[0].slice.id and loop.target.elts[1].id == st.value.id:
             dedups.append(st)
-    if not dedups:
-        raise AnalysisError("C01-R20: the per-sink de-duplication of plan_wire_colors was not found")
+    n20 = 0
     for st in dedups:
-        keyname = st.targets[0].slice.id
-        per_use = "merge" in keyname  # a key that carries the merge id tells two uses of one source apart
-        rep.check(per_use, "C01-R20", "plan_wire_colors keeps one entry per (source, use) at a sink", f"key `{keyname}`" if per_use else
-                  f"`{norm(st)}` keeps the first use of a source at a sink and drops the others: the source gets one colour for the merge it is part of and for its own operand", pw20.loc(st))
+        n20 += 1
+        rep.bad("C01-R20", "plan_wire_colors keeps one entry per (source, use) at a sink",
+                f"`{ckey20(pw20, st)}` keeps the first use of a source at a sink and drops the others: the source gets one colour for the merge it is part of and for its own operand", pw20.loc(st))
+    if not dedups:
+        rep.ok("C01-R20", "plan_wire_colors keeps one entry per (source, use) at a sink", "no de-duplication by the source alone", pw20.loc())
+
+
+def ckey20(f, st) -> str:
+    from .util import ckey
+    return ckey(f, st)
